@@ -541,12 +541,14 @@ def _build(spec):
                 hole[i, int(rng.integers(0, nrec)), j] = False
     dvec = (rng2.standard_normal((nsrc, nrec, nfreq)) +
             1j*rng2.standard_normal((nsrc, nrec, nfreq)))
+    def _more(base, n, pre):    # more items than names in the table
+        return (base + [f"{pre}_{k}.y" for k in range(len(base), n)])[:n]
     if spec.get('names', 'default') == 'custom':
-        snames = SRC_NAMES[:nsrc]
-        fnames = FREQ_NAMES[:nfreq]
+        snames = _more(SRC_NAMES, nsrc, 'Tx')
+        fnames = _more(FREQ_NAMES, nfreq, 'f')
     elif spec.get('names', 'default') == 'colliding':
-        snames = SRC_NAMES_COLL[:nsrc]
-        fnames = FREQ_NAMES_COLL[:nfreq]
+        snames = _more(SRC_NAMES_COLL, nsrc, 'A_B_C')
+        fnames = _more(FREQ_NAMES_COLL, nfreq, 'x')
     else:
         snames = fnames = None
     return dict(grid=grid, model_args=model_args, src=src, recs=recs,
